@@ -24,6 +24,7 @@ pub fn run(cx: &mut Ctx) {
     crate::rules::grammar_rules::paren_sensitive_flags(cx, &g);
     soft_keywords(cx);
     import_dots(cx, &g);
+    identifier_predicates(cx);
     parse_args_order(cx);
 }
 
@@ -239,8 +240,15 @@ fn operator_alternatives(cx: &mut Ctx, g: &Grammar) {
     }
 }
 
+pub fn start_markers_pub(cx: &mut Ctx, g: &Grammar, rule: &str) {
+    start_markers_named(cx, g, rule)
+}
+
 fn start_markers(cx: &mut Ctx, g: &Grammar) {
-    let rule = "C01.T4";
+    start_markers_named(cx, g, "C01.T4")
+}
+
+fn start_markers_named(cx: &mut Ctx, g: &Grammar, rule: &str) {
     cx.rule(rule, "Tok::start_marker maps the three modes to three distinct Start* tokens; each Top alternative begins with a distinct start token and builds the Mod variant of that mode; each impl Parse for Mod* passes its own mode and unwraps its own variant");
     cx.floor(rule, 9);
     let token = match sm::load(&cx.repo, "parser/src/token.rs") {
@@ -332,14 +340,19 @@ fn start_markers(cx: &mut Ctx, g: &Grammar) {
 }
 
 pub fn soft_keywords_pub(cx: &mut Ctx, rule: &str) {
-    soft_keywords_named(cx, rule)
+    soft_keywords_named(cx, rule, true)
+}
+
+/// Without the look-ahead rule: for properties that only need the relabelling and the start-of-line state (C09).
+pub fn soft_keywords_relabel_pub(cx: &mut Ctx, rule: &str) {
+    soft_keywords_named(cx, rule, false)
 }
 
 fn soft_keywords(cx: &mut Ctx) {
-    soft_keywords_named(cx, "C01.S1")
+    soft_keywords_named(cx, "C01.S1", true)
 }
 
-fn soft_keywords_named(cx: &mut Ctx, rule: &str) {
+fn soft_keywords_named(cx: &mut Ctx, rule: &str, lookahead: bool) {
     cx.rule(rule, "the soft-keyword pass is a relabelling: every rewritten token is the same soft keyword re-tagged as Name with its own range; soft_to_name spells match/case/type as the keyword table does; the start-of-line set is {StartModule, StartInteractive, Newline, Indent, Dedent}");
     cx.floor(rule, 5);
     let sk = match sm::load(&cx.repo, "parser/src/soft_keywords.rs") {
@@ -402,7 +415,9 @@ fn soft_keywords_named(cx: &mut Ctx, rule: &str) {
     } else {
         cx.fail(rule, &format!("{}/source", rule), &sk.loc(nx), "the returned token is not underlying.next() (possibly re-tagged)");
     }
-    soft_keyword_lookahead(cx, &sk, nx, &format!("{}b", rule));
+    if lookahead {
+        soft_keyword_lookahead(cx, &sk, nx, &format!("{}b", rule));
+    }
     // start-of-line set: the last matches!( tok, ... ) in the start_of_line assignment
     let mut sol: Option<BTreeSet<String>> = None;
     sm::for_each_expr_in_block(&nx.block, |e| {
@@ -535,6 +550,122 @@ fn import_dots(cx: &mut Ctx, g: &Grammar) {
             cx.ok(rule, &format!("{:?} -> {}", terms[0], terms[0].len()));
         } else {
             cx.fail(rule, &format!("{}/{}", rule, terms.get(0).map(|s| s.as_str()).unwrap_or("?")), &loc, &format!("terminal {:?} yields `{}`", terms, code));
+        }
+    }
+}
+
+/// Representative characters of the identifier partition outside ASCII, with their Unicode 15 XID properties
+/// (DerivedCoreProperties.txt): (char, XID_Start, XID_Continue).
+const XID_REPS: &[(char, bool, bool)] = &[
+    ('é', true, true),          // Ll
+    ('न', true, true),          // Lo (Devanagari NA)
+    ('ℂ', true, true),          // letterlike, Other_ID_Start neighbourhood
+    ('\u{0301}', false, true), // Mn combining acute
+    ('\u{094D}', false, true), // Mn Devanagari virama
+    ('٣', false, true),         // Nd Arabic-Indic digit three
+    ('·', false, true),         // U+00B7 Other_ID_Continue
+    ('‿', false, true),         // Pc undertie
+    ('€', false, false),        // Sc
+    ('→', false, false),        // Sm
+    ('\u{00A0}', false, false), // Zs
+    ('😀', false, false),       // So
+];
+
+fn identifier_predicates(cx: &mut Ctx) {
+    let rule = "C01.I2";
+    cx.rule(rule, "identifier character classes: is_identifier_start / is_identifier_continuation, interpreted from their syntax trees over all 128 ASCII characters and representatives of every non-ASCII class (XID_Start; XID_Continue-only marks, digits, connectors, U+00B7; neither), equal Python's identifier grammar — start = [A-Za-z_] | XID_Start, continue = [A-Za-z0-9_] | XID_Continue — with is_xid_start / is_xid_continue resolved to unic_ucd_ident; end of input is not a continuation");
+    cx.floor(rule, 2 * (128 + XID_REPS.len()) + 3);
+    let lx = match sm::load(&cx.repo, "parser/src/lexer.rs") {
+        Ok(t) => t,
+        Err(e) => return cx.anchor_missing(rule, &e),
+    };
+    let mut imported: BTreeSet<String> = BTreeSet::new();
+    for it in &lx.file.items {
+        if let syn::Item::Use(u) = it {
+            let t = sm::tsc(&u.tree);
+            if t.starts_with("unic_ucd_ident::") {
+                for n in ["is_xid_start", "is_xid_continue"] {
+                    if t.contains(n) {
+                        imported.insert(n.to_string());
+                    }
+                }
+            }
+        }
+    }
+    let whole = sm::tsc(&lx.file);
+    for n in ["is_xid_start", "is_xid_continue"] {
+        let used = whole.contains(&format!("{}(", n));
+        if !used || imported.contains(n) {
+            cx.ok(rule, &format!("{}: {}", n, if used { "the unic_ucd_ident function" } else { "not used" }));
+        } else {
+            cx.fail(rule, &format!("{}/imports/{}", rule, n), &lx.rel, &format!("{} is used but not imported from unic_ucd_ident", n));
+        }
+    }
+    let start_table: std::cell::RefCell<BTreeMap<u32, bool>> = std::cell::RefCell::new(BTreeMap::new());
+    let methods = |_recv: &crate::eval::V, name: &str, args: &[crate::eval::V]| -> Option<crate::eval::V> {
+        let c = match args.first() {
+            Some(crate::eval::V::Char(c)) => char::from_u32(*c)?,
+            _ => return None,
+        };
+        let row = XID_REPS.iter().find(|r| r.0 == c);
+        let ascii_start = c.is_ascii_alphabetic();
+        let ascii_cont = c.is_ascii_alphanumeric() || c == '_'; // '_' is Pc: XID_Continue, not XID_Start
+        match name.rsplit("::").next()? {
+            "is_xid_start" => Some(crate::eval::V::Bool(if c.is_ascii() { ascii_start } else { row?.1 })),
+            "is_xid_continue" => Some(crate::eval::V::Bool(if c.is_ascii() { ascii_cont } else { row?.2 })),
+            // sibling predicate, interpreted in the first pass
+            "is_identifier_start" => start_table.borrow().get(&(c as u32)).map(|b| crate::eval::V::Bool(*b)),
+            _ => None,
+        }
+    };
+    for (fname, cont) in [("is_identifier_start", false), ("is_identifier_continuation", true)] {
+        let Some(f) = lx.method("Lexer", fname) else {
+            cx.anchor_missing(rule, fname);
+            continue;
+        };
+        let takes_c = f.sig.inputs.len() == 2;
+        let mut bad: Vec<String> = vec![];
+        let mut n = 0;
+        let mut chars: Vec<(char, bool)> = (0u8..128).map(|b| {
+            let c = b as char;
+            (c, if cont { c.is_ascii_alphanumeric() || c == '_' } else { c.is_ascii_alphabetic() || c == '_' })
+        }).collect();
+        chars.extend(XID_REPS.iter().map(|r| (r.0, if cont { r.2 } else { r.1 })));
+        for (c, want) in &chars {
+            let mut m = crate::eval::Machine::new(&methods);
+            if takes_c {
+                if let Some(syn::FnArg::Typed(pt)) = f.sig.inputs.iter().nth(1) {
+                    m.set(&sm::tsc(&pt.pat), crate::eval::V::Char(*c as u32));
+                }
+            }
+            m.set("self.window[0]", crate::eval::V::Opt(Some(Box::new(crate::eval::V::Char(*c as u32)))));
+            n += 1;
+            let r = m.eval_block(&f.block);
+            if let (false, Ok(crate::eval::V::Bool(b))) = (cont, &r) {
+                start_table.borrow_mut().insert(*c as u32, *b);
+            }
+            match r {
+                Ok(crate::eval::V::Bool(b)) if b == *want => {}
+                Ok(v) => bad.push(format!("{:?} -> {:?} (expected {})", c, v, want)),
+                Err(e) => bad.push(format!("{:?}: not interpretable ({})", c, e)),
+            }
+        }
+        if !takes_c {
+            let mut m = crate::eval::Machine::new(&methods);
+            m.set("self.window[0]", crate::eval::V::Opt(None));
+            n += 1;
+            match m.eval_block(&f.block) {
+                Ok(crate::eval::V::Bool(false)) => {}
+                other => bad.push(format!("end of input -> {:?} (expected false)", other)),
+            }
+        }
+        if bad.is_empty() {
+            for _ in 0..n {
+                cx.ok_trivial(rule);
+            }
+            cx.ok(rule, &format!("{}: {} characters agree with the identifier grammar", fname, n));
+        } else {
+            cx.fail(rule, &format!("{}/{}", rule, fname), &lx.loc(f), &format!("{} disagrees with Python's identifier grammar on {} of {} characters, e.g. {}", fname, bad.len(), n, bad.iter().take(4).cloned().collect::<Vec<_>>().join("; ")));
         }
     }
 }
